@@ -53,7 +53,7 @@ PROPS["C10"] = make_prop("C10", [ES("C10", "C10", "nodes,j"), TE("C10", {"fn"})]
 PROPS["C11"] = make_prop("C11", [tlaps_stage, slice_loop_stage, ES("C11", "C11", "order"), TE("C11", {"slice"}), TL("C11", {"nodes", "order", "outcome"})],
     "all (start,end,step) over a window around the array length plus the +-BIG abstraction of +-(2^53-1) x all lengths; all indices; also under a descendant segment; plus the loop machine SliceLoop.tla on the spec side; " + NT,
     COMMON_ASSUME + ["BIG abstraction: an integer beyond the window behaves like its saturated representative (DESIGN 3.1)"])
-PROPS["C12"] = make_prop("C12", [lambda ev, tier, seed: session_stage(ev, "C12", tier, seed), lambda ev, tier, seed: long_session_stage(ev, "C12", tier, seed), lambda ev, tier, seed: stress_stage(ev, "C12", tier, seed), ES("C12", "C01", "entry,prog,recover"), ES("C12", "C05", "entry,prog,recover"), ES("C12", "C04", "entry,prog"), ES("C12", "C10", "entry,prog"), ES("C12", "C03", "entry")],
+PROPS["C12"] = make_prop("C12", [lambda ev, tier, seed: session_stage(ev, "C12", tier, seed), lambda ev, tier, seed: long_session_stage(ev, "C12", tier, seed), lambda ev, tier, seed: stress_stage(ev, "C12", tier, seed), TL("C12", {"outcome", "nodes", "order"}, "text"), ES("C12", "C01", "entry,prog,recover"), ES("C12", "C05", "entry,prog,recover"), ES("C12", "C04", "entry,prog"), ES("C12", "C10", "entry,prog"), ES("C12", "C03", "entry")],
     "the three entry points, the prepared query and a repetition compared position by position on every behaviour; document snapshot before/after; " + NT, COMMON_ASSUME)
 PROPS["C14"] = make_prop("C14", [ES("C14", "C14", "nodes")],
     "five extension functions over all (x, L) pairs of element values, arrays of them, non-arrays and missing members; also negated and with $-rooted argument; " + NT,
